@@ -287,9 +287,9 @@ func (e *Engine) release(g *Gor, obj *vclock) {
 // ---- race monitor (FastTrack-like, full read vectors)
 
 type epoch struct {
-	g   int
-	c   int32
-	pos string
+	g  int
+	c  int32
+	at ssa.Instruction // position rendered only when a race is reported
 }
 
 type cellMeta struct {
@@ -361,7 +361,7 @@ func (e *Engine) raceAccess(key any, write bool, at ssa.Instruction) {
 				e.reportRace(r, false, true, at)
 			}
 		}
-		me.pos = e.posOf(at)
+		me.at = at
 		m.w, m.hasW = me, true
 		m.reads = m.reads[:0]
 		return
@@ -372,7 +372,7 @@ func (e *Engine) raceAccess(key any, write bool, at ssa.Instruction) {
 			return
 		}
 	}
-	me.pos = e.posOf(at)
+	me.at = at
 	m.reads = append(m.reads, me)
 }
 
@@ -384,7 +384,7 @@ func (e *Engine) reportRace(prev epoch, prevWrite, curWrite bool, at ssa.Instruc
 		return "read"
 	}
 	msg := fmt.Sprintf("data race: %s by g%d at %s vs earlier %s by g%d at %s",
-		k(curWrite), e.cur.id, e.posOf(at), k(prevWrite), prev.g, prev.pos)
+		k(curWrite), e.cur.id, e.posOf(at), k(prevWrite), prev.g, e.posOf(prev.at))
 	e.endPath(pathResult{kind: "race", msg: msg})
 	panic(pathAbort{"race"})
 }
